@@ -174,7 +174,8 @@ Print Assumptions C11_agent_output_directive.
    carried out and every target still holds what was written to it *)
 Theorem C11_input_staged_partial :
   forall t l fs,
-    forallb keeps l = true -> h_ok (agent_si_steps t l fs []) = true ->
+    forallb keeps l = true -> files_only (agent_in_step t) l fs = true ->
+    h_ok (agent_si_steps t l fs []) = true ->
     NoDup (map fst (h_log (agent_si_steps t l fs []))) ->
     List.length (h_log (agent_si_steps t l fs [])) = List.length l /\
     Forall (fun ec => file_at (fst ec) (h_fs (agent_si_steps t l fs [])) = Some (snd ec))
@@ -184,7 +185,8 @@ Print Assumptions C11_input_staged_partial.
 
 Theorem C11_output_staged_partial :
   forall t l fs,
-    forallb keeps l = true -> h_ok (agent_so_steps t l fs []) = true ->
+    forallb keeps l = true -> files_only (agent_out_step t) l fs = true ->
+    h_ok (agent_so_steps t l fs []) = true ->
     NoDup (map fst (h_log (agent_so_steps t l fs []))) ->
     List.length (h_log (agent_so_steps t l fs [])) = List.length l /\
     Forall (fun ec => file_at (fst ec) (h_fs (agent_so_steps t l fs [])) = Some (snd ec))
@@ -196,7 +198,7 @@ Print Assumptions C11_output_staged_partial.
    without a tarball *)
 Theorem C11_transfer_staged_partial :
   forall tar l fs,
-    no_tar l = true -> h_ok (copy_all tar l fs []) = true ->
+    no_tar l = true -> files_only_rs l fs = true -> h_ok (copy_all tar l fs []) = true ->
     NoDup (map fst (h_log (copy_all tar l fs []))) ->
     List.length (h_log (copy_all tar l fs [])) = List.length l /\
     Forall (fun ec => file_at (fst ec) (h_fs (copy_all tar l fs [])) = Some (snd ec)) (h_log (copy_all tar l fs [])).
@@ -212,7 +214,8 @@ Print Assumptions C11_transfer_staged_partial.
    content. *)
 Theorem C11_input_last_writer :
   forall t l fs,
-    forallb keeps l = true -> h_ok (agent_si_steps t l fs []) = true ->
+    forallb keeps l = true -> files_only (agent_in_step t) l fs = true ->
+    h_ok (agent_si_steps t l fs []) = true ->
     List.length (h_log (agent_si_steps t l fs [])) = List.length l /\
     forall q, file_at q (h_fs (agent_si_steps t l fs [])) =
               match last_write q (h_log (agent_si_steps t l fs [])) with Some c => Some c | None => file_at q fs end.
@@ -221,7 +224,8 @@ Print Assumptions C11_input_last_writer.
 
 Theorem C11_output_last_writer :
   forall t l fs,
-    forallb keeps l = true -> h_ok (agent_so_steps t l fs []) = true ->
+    forallb keeps l = true -> files_only (agent_out_step t) l fs = true ->
+    h_ok (agent_so_steps t l fs []) = true ->
     List.length (h_log (agent_so_steps t l fs [])) = List.length l /\
     forall q, file_at q (h_fs (agent_so_steps t l fs [])) =
               match last_write q (h_log (agent_so_steps t l fs [])) with Some c => Some c | None => file_at q fs end.
@@ -230,7 +234,7 @@ Print Assumptions C11_output_last_writer.
 
 Theorem C11_transfer_last_writer :
   forall tar l fs,
-    no_tar l = true -> h_ok (copy_all tar l fs []) = true ->
+    no_tar l = true -> files_only_rs l fs = true -> h_ok (copy_all tar l fs []) = true ->
     List.length (h_log (copy_all tar l fs [])) = List.length l /\
     forall q, file_at q (h_fs (copy_all tar l fs [])) =
               match last_write q (h_log (copy_all tar l fs [])) with Some c => Some c | None => file_at q fs end.
@@ -244,15 +248,103 @@ Example C11_overwrite_nonvacuous :
   let '(_, fs', fin) := run_bulks
     [ [ {| ti_uid := "t0"; ti_sb := ex_sb "t0";
            ti_in := [ SDict (Some "client:///a.dat") (Some "pilot:///shared/params.dat") (Some Transfer) false ];
-           ti_out := []; ti_soe := false; ti_outcome := DONE; ti_exec := [] |} ];
+           ti_out := []; ti_soe := false; ti_outcome := DONE; ti_exec := []; ti_ops := [] |} ];
       [ {| ti_uid := "t1"; ti_sb := ex_sb "t1";
            ti_in := [ SDict (Some "client:///b.dat") (Some "pilot:///shared/params.dat") (Some Transfer) false;
                       SStr "a.dat > pilot:///sh.dat" ];
-           ti_out := []; ti_soe := false; ti_outcome := DONE; ti_exec := [] |} ] ] ex_fs in
+           ti_out := []; ti_soe := false; ti_outcome := DONE; ti_exec := []; ti_ops := [] |} ] ] ex_fs in
   ( file_at ["R"; "rsb"; "s1"; "p0"; "shared"; "params.dat"] fs',
     file_at ["R"; "rsb"; "s1"; "p0"; "sh.dat"] fs',
     map (fun t => (t_uid t, last (t_pub t) DONE)) fin )
   = ( Some (Plain 2), Some (Plain 1), [ ("t0", DONE); ("t1", DONE) ] ).
+Proof. vm_compute. reflexivity. Qed.
+
+(* ---- every directive creates the missing parents of its target when it runs ----
+   The state the directive finds is arbitrary: whatever earlier directives or
+   the payload moved away, removed or never created.  If the source is a file,
+   nothing but directories -- present or MISSING -- lies on the way to the
+   target and the target is free, then transfer, copy, link and move are carried
+   out and the target holds the content of the source. *)
+Theorem C11_staged_on_demand :
+  forall a s g c fs,
+    In a [Transfer; Copy; Link; Move] -> ready_file s g c fs ->
+    exists fs', handle_sd a s g fs = Ok fs' (r_comps g) /\ file_at (r_comps g) fs' = Some c.
+Proof. exact stage_on_demand. Qed.
+Print Assumptions C11_staged_on_demand.
+
+(* the same for a directory source (transfer / copy: cp -r, move: shutil.move):
+   every file below the source is below the target afterwards, with its content *)
+Theorem C11_directory_staged_on_demand :
+  forall a s g fs,
+    In a [Transfer; Copy; Move] -> ready_dir s g fs ->
+    exists fs', handle_sd a s g fs = OkDir fs' (r_comps g) /\
+                forall rel c, file_at (r_comps s ++ rel) fs = Some c -> file_at (r_comps g ++ rel) fs' = Some c.
+Proof. exact dir_on_demand. Qed.
+Print Assumptions C11_directory_staged_on_demand.
+
+(* whenever a directive reports a directory result, the source was a directory
+   when it ran and the whole tree is at the target (or in it, for a directory target) *)
+Theorem C11_directory_action_staged :
+  forall a s g fs fs' e,
+    handle_sd a s g fs = OkDir fs' e ->
+    exists fs1, mkdir_p (dirname_of g) fs = Some fs1 /\ is_dir (r_comps s) fs1 = true /\
+                (e = r_comps g \/ e = r_comps g ++ [last (r_comps s) EmptyString]) /\
+                forall rel c, file_at (r_comps s ++ rel) fs1 = Some c -> file_at (e ++ rel) fs' = Some c.
+Proof. exact handle_sd_dir_spec. Qed.
+Print Assumptions C11_directory_action_staged.
+
+(* sequences of any length through one stager: if every directive finds its
+   source (with content c_i) and a free target when ITS turn comes, the whole
+   sequence succeeds and each target holds the content of its source right after
+   its directive -- no assumption on what the earlier directives did to the
+   directories *)
+Theorem C11_sequence_staged_on_demand :
+  forall tar (l : list (rsd * content)) fs,
+    ready_seq l fs -> h_ok (copy_all tar (map fst l) fs []) = true /\ staged_seq l fs.
+Proof. exact seq_on_demand. Qed.
+Print Assumptions C11_sequence_staged_on_demand.
+
+Theorem C11_agent_output_on_demand :
+  forall t d s g c fs,
+    complete_url (agent_ctx (t_sb t)) (s_src d) = inr s ->
+    complete_url (agent_ctx (t_sb t)) (agent_fix_tgt (s_src d) (s_tgt d) fs) = inr g ->
+    r_schema s = "file" -> r_schema g = "file" -> In (s_act d) staged_actions -> ready_file s g c fs ->
+    exists fs', agent_out_step t d fs = Ok fs' (r_comps g) /\ file_at (r_comps g) fs' = Some c.
+Proof. exact agent_out_on_demand. Qed.
+Print Assumptions C11_agent_output_on_demand.
+
+Theorem C11_agent_input_on_demand :
+  forall t d s g c fs,
+    complete_url (agent_ctx (t_sb t)) (s_src d) = inr s ->
+    complete_url (agent_ctx (t_sb t)) (agent_fix_tgt (s_src d) (s_tgt d) fs) = inr g ->
+    r_schema g = "file" -> In (s_act d) staged_actions -> ready_file s g c fs ->
+    exists fs', agent_in_step t d fs = Ok fs' (r_comps g) /\ file_at (r_comps g) fs' = Some c.
+Proof. exact agent_in_on_demand. Qed.
+Print Assumptions C11_agent_input_on_demand.
+
+(* non-vacuity: two tasks, one after the other, through the same stagers:
+   the first stages into pilot:///collect; the second moves that directory into
+   its sandbox, stages into pilot:///collect again, its payload then removes
+   the directory, and a third task stages into it once more *)
+Example C11_on_demand_nonvacuous :
+  let '(_, fs', fin) := run_bulks
+    [ [ {| ti_uid := "t0"; ti_sb := ex_sb "t0"; ti_in := [];
+           ti_out := [ SDict (Some "o.dat") (Some "pilot:///collect/o0.dat") (Some Copy) false ];
+           ti_soe := false; ti_outcome := DONE; ti_exec := [ (["o.dat"], 5%Z) ]; ti_ops := [] |} ];
+      [ {| ti_uid := "t1"; ti_sb := ex_sb "t1"; ti_in := [];
+           ti_out := [ SDict (Some "pilot:///collect") (Some "task:///collected") (Some Move) false;
+                       SDict (Some "o.dat") (Some "pilot:///collect/o1.dat") (Some Copy) false ];
+           ti_soe := false; ti_outcome := DONE; ti_exec := [ (["o.dat"], 6%Z) ]; ti_ops := [] |} ];
+      [ {| ti_uid := "t2"; ti_sb := ex_sb "t2"; ti_in := [];
+           ti_out := [ SStr "o.dat > pilot:///collect/o2.dat" ];
+           ti_soe := false; ti_outcome := DONE; ti_exec := [ (["o.dat"], 7%Z) ];
+           ti_ops := [ XRm ["R"; "rsb"; "s1"; "p0"; "collect"] ] |} ] ] ex_fs in
+  ( file_at ["R"; "rsb"; "s1"; "p0"; "t1"; "collected"; "o0.dat"] fs',
+    file_at ["R"; "rsb"; "s1"; "p0"; "collect"; "o0.dat"] fs',
+    file_at ["R"; "rsb"; "s1"; "p0"; "collect"; "o1.dat"] fs',
+    file_at ["R"; "rsb"; "s1"; "p0"; "collect"; "o2.dat"] fs',
+    map (fun t => (t_uid t, last (t_pub t) DONE)) fin )
+  = ( Some (Plain 5), None, None, Some (Plain 7), [ ("t0", DONE); ("t1", DONE); ("t2", DONE) ] ).
 Proof. vm_compute. reflexivity. Qed.
 
 (* ---- failed tasks ---- *)
@@ -297,11 +389,11 @@ Definition ex_case : list task_in :=
                   SDict (Some "client:///b.dat") (Some "task:///deep/b.dat") (Some Tarball) false ];
        ti_out := [ SStr "client:///res/o.dat < o.dat";
                    SDict (Some "o.dat") (Some "pilot:///keep/") (Some Copy) false ];
-       ti_soe := false; ti_outcome := DONE; ti_exec := [ (["o.dat"], 7%Z) ] |};
+       ti_soe := false; ti_outcome := DONE; ti_exec := [ (["o.dat"], 7%Z) ]; ti_ops := [] |};
     {| ti_uid := "t1"; ti_sb := ex_sb "t1";
-       ti_in := [ SStr "nope.dat" ]; ti_out := []; ti_soe := false; ti_outcome := DONE; ti_exec := [] |};
+       ti_in := [ SStr "nope.dat" ]; ti_out := []; ti_soe := false; ti_outcome := DONE; ti_exec := []; ti_ops := [] |};
     {| ti_uid := "t2"; ti_sb := ex_sb "t2";
-       ti_in := []; ti_out := [ SStr "o.dat" ]; ti_soe := false; ti_outcome := FAILED; ti_exec := [ (["o.dat"], 8%Z) ] |} ].
+       ti_in := []; ti_out := [ SStr "o.dat" ]; ti_soe := false; ti_outcome := FAILED; ti_exec := [ (["o.dat"], 8%Z) ]; ti_ops := [] |} ].
 
 Example C11_nonvacuous :
   let '(_, fs', fin) := run_case ex_case ex_fs in
@@ -323,7 +415,7 @@ Proof. vm_compute. reflexivity. Qed.
 Definition ex_tar_empty : list task_in :=
   [ {| ti_uid := "t0"; ti_sb := ex_sb "t0";
        ti_in := [ SDict (Some "a.dat") (Some "") (Some Tarball) false ];
-       ti_out := []; ti_soe := false; ti_outcome := DONE; ti_exec := [] |} ].
+       ti_out := []; ti_soe := false; ti_outcome := DONE; ti_exec := []; ti_ops := [] |} ].
 
 Theorem C11_tarball_empty_target_refuted :
   exists tis fs0, file_at ["R"; "client"; "a.dat"] fs0 = Some (Plain 1) /\
@@ -339,7 +431,7 @@ Theorem C11_empty_target_staged_partial :
     let '(_, fs', fin) := run_case
       [ {| ti_uid := "t0"; ti_sb := ex_sb "t0";
            ti_in := [ SDict (Some (if client_side_b a then "a.dat" else "pilot:///sh.dat")) (Some "") (Some a) false ];
-           ti_out := []; ti_soe := false; ti_outcome := DONE; ti_exec := [] |} ] ex_fs in
+           ti_out := []; ti_soe := false; ti_outcome := DONE; ti_exec := []; ti_ops := [] |} ] ex_fs in
     map (fun t => last (t_pub t) DONE) fin = [DONE] /\
     file_at (["R"; "rsb"; "s1"; "p0"; "t0"] ++ [if client_side_b a then "a.dat" else "sh.dat"]) fs'
       = Some (Plain (if client_side_b a then 1 else 3)).
